@@ -4,7 +4,7 @@
 use crate::engines::client::{new_runtime, subscriber_guard, Dl};
 use crate::sim::clock;
 use crate::sim::exec::{Exec, PollOut, TaskId, TaskState};
-use crate::sim::hist::{Ev, Hist, IoOp, Probes, Rec, Tc};
+use crate::sim::hist::{Ev, Hist, IoOp, IoRes, Msg, Probes, Rec, Tc};
 use crate::sim::transport::{sim_transport, SimHandle, SimTransport, UNLIMITED};
 use futures::{Future, Stream};
 use serde::{Deserialize, Serialize};
@@ -292,6 +292,15 @@ pub struct ServerSim {
     pub internal_pending: Cell<u32>,
     pub last_unblocked_poll_ns: Cell<u64>,
     pub answered_insts: RefCell<std::collections::BTreeSet<usize>>,
+    tr_id: u8,
+    /// ground truth reconstructed from the transport log, in order: id -> instance the channel tracks
+    real_tracked: RefCell<BTreeMap<u64, usize>>,
+    /// instance -> true when the channel accepted it, false when it ignored it as a duplicate (absent: unread)
+    fate: RefCell<BTreeMap<usize, bool>>,
+    /// ids for which the log cannot tell whether a request was accepted or ignored (the tracked one may
+    /// have expired): never duplicated or reused again
+    poisoned_ids: RefCell<std::collections::BTreeSet<u64>>,
+    scan_cursor: Cell<usize>,
 }
 
 impl ServerSim {
@@ -302,6 +311,7 @@ impl ServerSim {
     }
 
     pub fn with_transport(cfg: ServerCfg, hist: Hist, hop: usize, transport: STransport, tr: SHandle) -> Rc<Self> {
+        let tr_id = tr.id();
         let exec = Exec::new();
         let shared = Rc::new(HandlerShared::default());
         let probes = Rc::new(ServerProbes::default());
@@ -380,6 +390,11 @@ impl ServerSim {
             internal_pending: Cell::new(0),
             last_unblocked_poll_ns: Cell::new(0),
             answered_insts: RefCell::new(Default::default()),
+            tr_id,
+            real_tracked: RefCell::new(BTreeMap::new()),
+            fate: RefCell::new(BTreeMap::new()),
+            poisoned_ids: RefCell::new(Default::default()),
+            scan_cursor: Cell::new(0),
         })
     }
 
@@ -435,14 +450,99 @@ impl ServerSim {
         self.handler_tasks.borrow_mut().insert(inst, t);
     }
 
-    pub fn collect_wire(&self) {
-        for m in self.tr.take_wire() {
-            // model: a written response ends the request
-            let id = m.request_id;
-            if let Some(inst) = self.model_in_flight.borrow_mut().remove(&id) {
-                self.completed_ids.borrow_mut().push(id);
-                self.answered_insts.borrow_mut().insert(inst);
+    /// Bring the environment's model in line with what the channel actually read and wrote (in log
+    /// order): whether a request was accepted or ignored as a duplicate depends on whether its id was
+    /// tracked *when it was read*, which the environment cannot know when it sends the request.
+    fn sync_model(&self) {
+        enum Obs {
+            Req(u64, u64, u64),
+            Cancel(u64),
+            Resp(u64),
+        }
+        let start = self.scan_cursor.get();
+        let me = self.tr_id;
+        let obs: Vec<Obs> = self.hist.with(|recs| {
+            recs[start.min(recs.len())..]
+                .iter()
+                .filter_map(|r| match &r.ev {
+                    Ev::Io { tr, op: IoOp::Next, res: IoRes::Item(Msg::Request { id, body, .. }), .. } if *tr == me => {
+                        Some(Obs::Req(*id, *body, r.t_ns))
+                    }
+                    Ev::Io { tr, op: IoOp::Next, res: IoRes::Item(Msg::Cancel { id, .. }), .. } if *tr == me => Some(Obs::Cancel(*id)),
+                    Ev::Io { tr, op: IoOp::Send, sent: Some(Msg::Response { id, .. }), res: IoRes::Ok, .. } if *tr == me => {
+                        Some(Obs::Resp(*id))
+                    }
+                    _ => None,
+                })
+                .collect()
+        });
+        self.scan_cursor.set(self.hist.len());
+        for o in obs {
+            match o {
+                Obs::Req(id, body, t_ns) => {
+                    let Some(&inst) = self.shared.by_body.borrow().get(&body) else { continue };
+                    let tracked = self.real_tracked.borrow().get(&id).copied();
+                    match tracked {
+                        Some(other) if other != inst => {
+                            if (t_ns as i128) >= self.insts.borrow()[other].deadline_ns {
+                                // the tracked one may have expired: accepted or ignored, the log cannot tell
+                                self.poisoned_ids.borrow_mut().insert(id);
+                            }
+                            self.fate.borrow_mut().insert(inst, false);
+                            let mut m = self.model_in_flight.borrow_mut();
+                            if m.get(&id) == Some(&inst) {
+                                m.insert(id, other);
+                            }
+                        }
+                        _ => {
+                            self.real_tracked.borrow_mut().insert(id, inst);
+                            self.fate.borrow_mut().insert(inst, true);
+                            if self.insts.borrow()[inst].kind == "dup-in-flight" {
+                                // sent as a duplicate, but the original had been answered by the time it was read
+                                self.insts.borrow_mut()[inst].kind = "dup-accepted";
+                                self.model_in_flight.borrow_mut().insert(id, inst);
+                                self.completed_ids.borrow_mut().retain(|x| *x != id);
+                            }
+                        }
+                    }
+                }
+                Obs::Cancel(id) => {
+                    if let Some(inst) = self.real_tracked.borrow_mut().remove(&id) {
+                        let mut m = self.model_in_flight.borrow_mut();
+                        if m.get(&id) == Some(&inst) {
+                            m.remove(&id);
+                        }
+                    }
+                }
+                Obs::Resp(id) => {
+                    // a response the transport accepted (even if only buffered) ends the request: the
+                    // channel forgets the id when it hands the response to the sink, not at the flush
+                    let inst = self.real_tracked.borrow_mut().remove(&id);
+                    let mut m = self.model_in_flight.borrow_mut();
+                    let inst = match inst {
+                        Some(i) => {
+                            if m.get(&id) == Some(&i) {
+                                m.remove(&id);
+                            }
+                            Some(i)
+                        }
+                        None => m.remove(&id),
+                    };
+                    if let Some(i) = inst {
+                        self.answered_insts.borrow_mut().insert(i);
+                        let mut c = self.completed_ids.borrow_mut();
+                        if !m.contains_key(&id) && !c.contains(&id) {
+                            c.push(id);
+                        }
+                    }
+                }
             }
+        }
+    }
+
+    pub fn collect_wire(&self) {
+        self.sync_model();
+        for m in self.tr.take_wire() {
             self.responses.borrow_mut().push(m);
         }
     }
@@ -611,11 +711,13 @@ impl ServerSim {
                 // only ids that are certainly still in flight (deadline well ahead)
                 let now = clock::now_ns() as i128;
                 let insts = self.insts.borrow();
+                let poisoned = self.poisoned_ids.borrow();
                 let ids: Vec<u64> = m
                     .iter()
-                    .filter(|(_, i)| insts[**i].deadline_ns > now + 10_000_000)
+                    .filter(|(k, i)| insts[**i].deadline_ns > now + 10_000_000 && !poisoned.contains(k))
                     .map(|(k, _)| *k)
                     .collect();
+                drop(poisoned);
                 if ids.is_empty() {
                     drop(insts);
                     drop(m);
@@ -633,13 +735,17 @@ impl ServerSim {
                 let answered = self.answered_insts.borrow();
                 let held = self.held.borrow();
                 let tasks = self.handler_tasks.borrow();
+                let fate = self.fate.borrow();
+                let poisoned = self.poisoned_ids.borrow();
                 let cands: Vec<u64> = c
                     .iter()
                     .copied()
-                    .filter(|id| !inflight.contains_key(id))
+                    .filter(|id| !inflight.contains_key(id) && !poisoned.contains(id))
                     .filter(|id| {
                         insts.iter().filter(|x| x.id == *id).all(|x| {
-                            (answered.contains(&x.inst) || x.kind == "dup-in-flight")
+                            // read already, and either ignored as a duplicate or accepted and answered
+                            matches!(fate.get(&x.inst), Some(false)) && tasks.get(&x.inst).is_none()
+                                || matches!(fate.get(&x.inst), Some(true)) && answered.contains(&x.inst)
                                 && !held.contains_key(&x.inst)
                                 && tasks.get(&x.inst).map_or(true, |t| self.exec.state(*t) != TaskState::Alive)
                         })
@@ -801,6 +907,10 @@ impl ServerSim {
         if m.get(&id) == Some(&inst) {
             m.remove(&id);
         }
+        let mut rt = self.real_tracked.borrow_mut();
+        if rt.get(&id) == Some(&inst) {
+            rt.remove(&id);
+        }
     }
 
     pub fn start_held(&self, sel: u16) {
@@ -830,6 +940,10 @@ impl ServerSim {
         let mut m = self.model_in_flight.borrow_mut();
         if m.get(&id) == Some(&inst) {
             m.remove(&id);
+        }
+        let mut rt = self.real_tracked.borrow_mut();
+        if rt.get(&id) == Some(&inst) {
+            rt.remove(&id);
         }
     }
 
